@@ -179,8 +179,9 @@ Definition guard_F3 (cr : cred) : bool :=
   | _ => false
   end.
 
-(** C05-F5 (open): a token WITHOUT issuer is accepted when the empty string is among the trusted issuers, which
-    is the case when no `issuers` are configured and the (unverified) metadata document states no issuer *)
+(** C05-F5 (repaired by d55629a; the model is not parametric in it, it has the repair): a token WITHOUT issuer was
+    accepted when the empty string is among the trusted issuers, which is the case when no `issuers` are
+    configured and the (unverified) metadata document states no issuer *)
 Definition guard_F5 (cf : config) (cr : cred) : bool :=
   match cr with
   | CToken t => String.eqb (c_iss (t_claims t)) "" && mem EmptyString (trusted_issuers cf)
@@ -188,7 +189,7 @@ Definition guard_F5 (cf : config) (cr : cred) : bool :=
   end.
 
 (** the findings that are open in the code as it is *)
-Definition open_guards (cf : config) (cr : cred) : bool := guard_F3 cr || guard_F5 cf cr.
+Definition open_guards (cf : config) (cr : cred) : bool := guard_F3 cr.
 
 (** C05-F2 (repaired by f16c3cc): an `nbf` or `iat` claim beyond int64 wrapped around to "not set" *)
 Definition guard_F2 (cr : cred) : bool :=
